@@ -166,9 +166,6 @@ impl<A, C: Clock, F: Filter, R: Rng, S: PtpInstanceStateMutex> Port<'_, InBmca, 
 
         match recommended_state {
             RecommendedState::M1(defaultds) | RecommendedState::M2(defaultds) => {
-                // a slave-only PTP port should never end up in the master state
-                debug_assert!(!default_ds.slave_only);
-
                 current_ds.steps_removed = 0;
 
                 parent_ds.parent_port_identity.clock_identity = defaultds.clock_identity;
